@@ -747,14 +747,14 @@ func run(tb ev.TB, c groupCase) (labels []string, nontrivial bool) {
 					n++
 				}
 			}
-			if want := int(gap/hb) / 4; n < want {
+			if want := int(gap/beatFloor(hb)) / 4; n < want {
 				fail("c15/heartbeats-missing-before-next", "generation %d was joined and synced %v before Next was called for it; with HeartbeatInterval %v only %d heartbeats were sent in between (a quarter of the expected number is %d)", id, gap, hb, n, want)
 				return
 			}
 			lab["generation_waited_for_next"] = true
 		}
 		if life >= 10*hb+time.Second {
-			want := int(life/hb) / 4
+			want := int(life/beatFloor(hb)) / 4
 			if gi.beats < want {
 				fail("c15/heartbeats-missing", "generation %d lived %v with HeartbeatInterval %v but sent only %d heartbeats (a quarter of the expected number is %d)", id, life, hb, gi.beats, want)
 				return
@@ -1016,4 +1016,16 @@ func TestGenerations(t *testing.T) {
 		ev.Case(fmt.Sprintf("b%d p%d w%v ends%v faults%v %v", c.Brokers, c.Partitions, c.WatchMs > 0, ends, sf, labels), nt, labels...)
 		ev.Sample(c)
 	})
+}
+
+
+// beatFloor is the interval the "too few heartbeats" rules count with: the configured one, but not below 25 ms.  With an
+// interval of 5 ms a test process that shares sixteen cores with forty others was seen to send a heartbeat every 22 ms
+// (a ticker drops the ticks nobody was there to take); a generation that sends no heartbeats, or one per second, is
+// still far below a quarter of life/25 ms.
+func beatFloor(hb time.Duration) time.Duration {
+	if hb < 25*time.Millisecond {
+		return 25 * time.Millisecond
+	}
+	return hb
 }
